@@ -6,11 +6,18 @@ length bound is explored (breadth first over the distinct states reached - the o
 rows/start/end/bait, so equal states have equal futures).  After the lookup and after every step the
 result is judged against a base-by-base expansion of the *source* scaffold, built here from the row
 specs (never from the code's own arithmetic).
+
+The figures are also read through the wrappers that OverhangResolver decides on (build_utils.OverhangPremise
+and its subclasses, obtained both from OverhangResolver.add_overhang_premise and by direct construction):
+in every state a premise for the first / last row must report bait overlap, what-if overhang, error delta
+and improves / makes_worse that equal the same interval arithmetic, and applying it must remove exactly that
+terminal row (with the gaps next to it) and leave the overhang its what-if value announced.
 """
 
 import itertools
 import random
 
+from tola.assembly import build_utils
 from tola.assembly.fragment import Fragment
 from tola.assembly.gap import Gap
 from tola.assembly.indexed_assembly import IndexedAssembly
@@ -143,6 +150,7 @@ def check_state(res, src):
     while k < len(rows) and isinstance(rows[k], Gap):
         k += 1
     new_start = ends[k - 1] + 1
+    k_start = k
     if res.overhang_if_start_removed() != bait.start - new_start:
         return f"overhang_if_start_removed {res.overhang_if_start_removed()}, next contig row starts at {new_start} so expected {bait.start - new_start}"
     k = len(rows) - 2
@@ -158,6 +166,33 @@ def check_state(res, src):
     c = clone(res)
     if apply_op(c, ("discard_end",)) and c.rows and c.end_overhang != new_end - bait.end:
         return f"discard_end leaves end_overhang {c.end_overhang}, interval arithmetic says {new_end - bait.end}"
+    # the same figures through the premise objects the overhang resolver works with
+    msg = check_premises(
+        res,
+        src,
+        {
+            "start": {
+                "which": "first",
+                "row": rows[0],
+                "bait_overlap": len(bait_pos & first_span),
+                "overhang": bait.start - res.start,
+                "overhang_if": bait.start - new_start,
+                "rows_if": rows[k_start:],
+                "span_if": (new_start, res.end),
+            },
+            "end": {
+                "which": "last",
+                "row": rows[-1],
+                "bait_overlap": len(bait_pos & last_span),
+                "overhang": res.end - bait.end,
+                "overhang_if": new_end - bait.end,
+                "rows_if": rows[: k + 1],
+                "span_if": (res.start, new_end),
+            },
+        },
+    )
+    if msg:
+        return msg
     # fragment_start_if_trimmed: the contig coordinate that remains lowest after cutting to the bait.
     # Only defined by the statement where there is something to cut (overhang >= 0 on that side).
     for frag in {id(rows[0]): rows[0], id(rows[-1]): rows[-1]}.values():
@@ -179,6 +214,125 @@ def check_state(res, src):
             continue
         if new.start != want_start:
             return f"trim_fragment({frag}) gives contig start {new.start}, cutting to the bait leaves {want_start}"
+    return None
+
+
+def row_keys(rows):
+    return [("G", r.length) if isinstance(r, Gap) else (r.name, r.start, r.end, r.strand) for r in rows]
+
+
+def class_side(cls):
+    """which end of the result a premise class speaks about, or None if unknown"""
+    if issubclass(cls, build_utils.StartOverhangPremise):
+        return "start"
+    if issubclass(cls, build_utils.EndOverhangPremise):
+        return "end"
+    return None
+
+
+def premise_side(prem):
+    return class_side(type(prem))
+
+
+def premise_classes():
+    """every subclass of OverhangPremise that build_utils defines (directly or not) whose side is known"""
+    todo = list(build_utils.OverhangPremise.__subclasses__())
+    out = []
+    while todo:
+        cls = todo.pop(0)
+        if cls in out:
+            continue
+        out.append(cls)
+        todo.extend(cls.__subclasses__())
+    return [(cls, class_side(cls)) for cls in out if class_side(cls)]
+
+
+PREMISE_CLASSES = premise_classes()
+
+
+def premises_of(res):
+    """
+    (how obtained, premise, side it must speak about, check figures?) for the terminal rows of res: one of
+    every OverhangPremise subclass built directly, then the ones the resolver builds (their figures are
+    only looked at again when the class was not already covered for that side)
+    """
+    rows = res.rows
+    out = []
+    covered = set()
+    for cls, side in PREMISE_CLASSES:
+        out.append((cls.__name__, cls(res, rows[0] if side == "start" else rows[-1]), side, True))
+        covered.add((cls, side))
+    for pos, frag in (("start", rows[0]), ("end", rows[-1])):
+        rsv = build_utils.OverhangResolver(error_length=1)
+        rsv.add_overhang_premise(frag, res)
+        made = [p for lst in rsv.premises_by_fragment_key.values() for p in lst]
+        if len(made) != 1:
+            out.append((f"add_overhang_premise({pos} row) made {len(made)} premises, expected 1", None, None, False))
+            continue
+        prem = made[0]
+        # a one-row result has the same fragment at both ends: either premise class is right for it
+        side = pos if len(rows) > 1 else (premise_side(prem) or pos)
+        out.append((f"made by add_overhang_premise for the {pos} row", prem, side, (type(prem), side) not in covered))
+    if len(rows) > 2 and not isinstance(rows[1], Gap):
+        rsv = build_utils.OverhangResolver(error_length=1)
+        rsv.add_overhang_premise(rows[1], res)
+        if rsv.premises_by_fragment_key:
+            out.append(("add_overhang_premise made a premise for a row that is not terminal", None, None, False))
+    return out
+
+
+def check_premises(res, src, want):
+    """want: side -> figures from interval arithmetic on the rows (computed in check_state)"""
+    bait = res.bait
+    rows = res.rows
+    for how, prem, side, figures in premises_of(res):
+        if prem is None:
+            return how
+        w = want[side]
+        name = type(prem).__name__ if how == type(prem).__name__ else f"{type(prem).__name__} ({how})"
+        if premise_side(prem) != side:
+            return f"{how} is a {type(prem).__name__}, which speaks about the other end"
+        if prem.scaffold is not res or prem.fragment is not w["row"]:
+            return f"{name} does not hold the result and its {side} row"
+        if not figures:
+            continue
+        if prem.bait_overlap != w["bait_overlap"]:
+            return f"{name}.bait_overlap {prem.bait_overlap}, bait and {w['which']} row share {w['bait_overlap']} positions"
+        if prem.overhang_if_applied != w["overhang_if"]:
+            return (
+                f"{name}.overhang_if_applied {prem.overhang_if_applied}, without the {w['which']} row the span is "
+                f"{w['span_if'][0]}..{w['span_if'][1]} so expected {w['overhang_if']}"
+            )
+        delta = abs(w["overhang_if"]) - abs(w["overhang"])
+        if prem.overhang_error_delta_if_applied != delta:
+            return (
+                f"{name}.overhang_error_delta_if_applied {prem.overhang_error_delta_if_applied}, {side} overhang is "
+                f"{w['overhang']} now and {w['overhang_if']} without the {w['which']} row so expected {delta}"
+            )
+        for e in ERR_LENGTHS:
+            # a removal improves when it brings the overhang nearer to zero, something remains, and it does
+            # not leave a negative overhang of three error lengths or more (those are cut instead)
+            imp = len(rows) > 1 and delta < 0 and w["overhang_if"] > -3 * e
+            if prem.improves(e) is not imp or prem.makes_worse(e) is imp:
+                return (
+                    f"{name}.improves({e}) = {prem.improves(e)}, makes_worse({e}) = {prem.makes_worse(e)}; {side} overhang "
+                    f"{w['overhang']} -> {w['overhang_if']} on {len(rows)} rows means improves = {imp}"
+                )
+        c = clone(res)
+        cp = type(prem)(c, c.rows[0] if side == "start" else c.rows[-1])
+        announced = cp.overhang_if_applied
+        try:
+            cp.apply()
+        except Exception as e:
+            return f"{name}.apply() raised {type(e).__name__}: {e}"
+        if row_keys(c.rows) != row_keys(w["rows_if"]) or (c.start, c.end) != w["span_if"]:
+            return (
+                f"{name}.apply() leaves span {c.start}..{c.end} rows {row_keys(c.rows)}, removing the {w['which']} row "
+                f"and the gaps next to it leaves {w['span_if'][0]}..{w['span_if'][1]} rows {row_keys(w['rows_if'])}"
+            )
+        after = c.start_overhang if side == "start" else c.end_overhang
+        if after != announced:
+            return f"{name}.apply() leaves {side} overhang {after} but overhang_if_applied announced {announced}"
     return None
 
 
